@@ -184,7 +184,7 @@ PROPS["C15"] = {
 
 PROPS["C16"] = {
     "imports": "Model.Cli", "prelude": "",
-    "level_text": "Theorem: the command accepts exactly one program source, counted by presence (all four-tuples of given/not given); the printed value is normalize(decode) or decode. These are thin: most of the assurance for C16 comes from the differential run - subprocess output of every source option x output flag combination parsed (repr evaluated, JSON section loaded, --dis vs --dis-after instruction lists compared) against the in-process API on each interpreter; the accept/reject decision of model and code is compared", "level_note": "argparse, dis.dis text output, Rich rendering (absent here: plain print fallback) are outside the model", "trusted_base": COMMON_TB + ["argparse, dis.dis text output, compile(): outside the model"], "assumptions": [],
+    "level_text": "Theorems: the command accepts exactly one program source, counted by presence (all four-tuples of given/not given); the printed value is normalize(decode) or decode; the --json section loads back to the printed value (C07 composed with C06); --dis-after without normalization disassembles the identical code object (C01) and by default a code object CPython reads as the same instruction stream (C05). The option/IO layer itself is thin in the model: most of the assurance for C16 comes from the differential run - subprocess output of every source option x output flag combination parsed (repr evaluated, JSON section loaded, --dis vs --dis-after instruction lists compared) against the in-process API on each interpreter; the accept/reject decision of model and code is compared", "level_note": "argparse, dis.dis text output, Rich rendering (absent here: plain print fallback) are outside the model", "trusted_base": COMMON_TB + ["argparse, dis.dis text output, compile(): outside the model"], "assumptions": [],
     "rule": "all 2^4 subsets of the four source options (with empty-string values) for the usage rule; programs x source kinds {file, -c, -e, -m} x subsets of the five output flags (quick: a seeded sample of 40, thorough: all); "
             "distinct = distinct argument vectors",
     "replay_hint": "python -c 'from code_data._cli import main; main()' <data.args> in a directory holding the program file",
